@@ -163,11 +163,12 @@ HASH_BAD = ([{'length': v} for v in (0, 65, -1, 32.0, 64.5, '32', True, False, N
             + [{'name': n} for n in ('aes_gcm', 'chacha20_poly1305', 'scrypt', 'gclmulchunker', 'md5', 'Blake2b', '', 5, None, [], True)]
             + [{'name': 'blake2b', 'bits': 256}, {'name': 'sha2', 'length': 32}, {'size': 32}, {'length': 32, 'salt': 'x'},
                {'name': 'sha3', 'bits': 256, 'length': 32}])
-CHUNK_OK = [{'min_length': a, 'max_length': b} for a, b in ((1, 4), (4, 4), (5, 8), (64, 256), (256, 256), (100, 1000), (3, 7), (True, 8))] \
+CHUNK_OK = [{'min_length': a, 'max_length': b} for a, b in ((1, 4), (4, 4), (5, 8), (64, 256), (256, 256), (100, 1000), (3, 7), (True, 8),
+                                                           (64, 2 ** 63 - 1), (2 ** 40, 2 ** 62))] \
     + [{}, {'name': 'gclmulchunker'}, {'max_length': 200000}, {'min_length': 1000}]
 CHUNK_BAD = ([{'min_length': a, 'max_length': b} for a, b in
               ((0, 0), (0, 4), (0, 256), (-5, 256), (-4, -4), (1.5, 256), (64, 256.0), (64.0, 256.0), (1, 3), (5, 7), (1, 1), (2, 3),
-               (300, 256), ('64', 256), (64, '256'), ('64', '256'), (False, 8), (True, True), (None, 256), (64, None), ([], 256))]
+               (64, 2 ** 63), (64, 2 ** 64), (2 ** 64, 2 ** 65), (64, 2 ** 70 + 1), (300, 256), ('64', 256), (64, '256'), ('64', '256'), (False, 8), (True, True), (None, 256), (64, None), ([], 256))]
              + [{'min_length': 6000000}, {'max_length': 100}, {'max_length': 0}]
              + [{'name': n} for n in ('blake2b', 'sha2', 'aes_gcm', 'chacha20_poly1305', 'scrypt', 'rabin', 7, None)]
              + [{'window': 5}, {'min_length': 64, 'max_length': 256, 'alignment': 4}, {'MIN_LENGTH': 64}])
@@ -494,7 +495,11 @@ def observe_case(case, ctx, idx):
                           None if enc is None else canon_adapter_py(enc['cipher']),
                           None if key is None else canon_adapter_py(key['kdf'])]
         serialized = None if key is None else Repository(be, concurrent=1, cache_directory=None).serialize(key)
-        obs['unusable'] = use_repository(be, serialized, password, cfg, ctx.scratch, ctx.rng, idx)
+        mx = cfg['chunking'].get('max_length')
+        if isinstance(mx, int) and mx >= 2 ** 62:
+            obs['unusable'] = None      # lengths near the limits of size_t are used in a process of their own (oversize_probe)
+        else:
+            obs['unusable'] = use_repository(be, serialized, password, cfg, ctx.scratch, ctx.rng, idx)
     return obs
 
 
@@ -719,6 +724,94 @@ def long_password_probe(rep: Report, ctx):
                                                    f'{len(bad)}-byte password', 'signature': sig,
                                            'replay': {'kdf': kdf, 'password': pw.hex(), 'wrong_password': bad.hex(), 'how': how}})
                     break
+
+
+# --------------------------------------------------------------------------- chunk lengths near the limits of size_t
+OVERSIZE_SCRIPT = r'''
+import asyncio, contextlib, io, json, os, sys
+from pathlib import Path
+from replicat.repository import Repository
+from replicat.backends.local import Local
+root, mn, mx = Path(sys.argv[1]), int(sys.argv[2]), int(sys.argv[3])
+out = {'accepted': False, 'error': None, 'usable': None}
+def quiet(coro):
+    with contextlib.redirect_stdout(io.StringIO()), contextlib.redirect_stderr(io.StringIO()):
+        return asyncio.run(coro)
+try:
+    quiet(Repository(Local(str(root / 'repo')), concurrent=1, cache_directory=None).init(
+        settings={'encryption': None, 'chunking': {'min_length': mn, 'max_length': mx}}))
+    out['accepted'] = True
+except BaseException as e:
+    out['error'] = type(e).__name__
+out['written'] = sorted(str(p.relative_to(root)) for p in (root / 'repo').rglob('*') if p.is_file()) if (root / 'repo').exists() else []
+print('RESULT ' + json.dumps(out), flush=True)
+if out['accepted']:
+    src = root / 'src'; src.mkdir(); (src / 'a').write_bytes(bytes(range(256)) * 9); (src / 'b').write_bytes(b'tiny')
+    r = Repository(Local(str(root / 'repo')), concurrent=1, cache_directory=None)
+    async def go():
+        await r.unlock(); await r.snapshot(paths=[src]); await r.restore(path=root / 'out')
+    try:
+        quiet(go())
+        got = {n: (root / 'out' / str(src.resolve()).lstrip('/') / n).read_bytes() for n in ('a', 'b')}
+        out['usable'] = 'ok' if got == {n: (src / n).read_bytes() for n in ('a', 'b')} else 'restored files differ'
+    except BaseException as e:
+        out['usable'] = f'{type(e).__name__}: {e}'[:160]
+    print('RESULT ' + json.dumps(out), flush=True)
+'''
+
+
+def oversize_probe(rep: Report, ctx):
+    """chunking lengths around 2**62 .. 2**64 and beyond: what init accepts must be usable, in a process of its own because a
+    native chunker fed with lengths it cannot represent may take the interpreter down."""
+    import subprocess
+    for k, (mn, mx) in enumerate(((64, 2 ** 62), (64, 2 ** 63 - 1), (64, 2 ** 63), (64, 2 ** 63 + 5), (64, 2 ** 64 - 1), (64, 2 ** 64),
+                                  (2 ** 63, 2 ** 64), (64, 2 ** 100))):
+        root = ctx.scratch / f'oversize{k}'
+        root.mkdir()
+        case = {'component': 'oversize', 'settings': {'encryption': None, 'chunking': {'min_length': mn, 'max_length': mx}}, 'password': None}
+        p = subprocess.run([core.PY, '-c', OVERSIZE_SCRIPT, str(root), str(mn), str(mx)], capture_output=True, text=True, timeout=300,
+                           env=dict(os.environ, **core.IMPL_ENV), cwd=str(root))
+        lines = [json.loads(x[7:]) for x in p.stdout.splitlines() if x.startswith('RESULT ')]
+        res = lines[-1] if lines else {'accepted': None, 'error': 'no result', 'usable': None, 'written': []}
+        rep.case(case, nontrivial=True)
+        rep.count('oversize:' + ('accepted' if res['accepted'] else 'rejected'))
+        sig = {'component': 'chunking', 'kind': 'accepted_unusable'}
+        if res['accepted'] and (p.returncode != 0 or res['usable'] != 'ok'):
+            how = f'the process dies with signal {-p.returncode}' if p.returncode < 0 else (res['usable'] or f'exit status {p.returncode}')
+            rep.violations.append({'what': f'init accepted chunking min {mn} / max {mx} and uploaded the config, but a fresh process cannot back up / restore: {how}',
+                                   'signature': sig, 'replay': case})
+        if res['accepted'] is False and res.get('written'):
+            rep.violations.append({'what': f'init rejected chunking min {mn} / max {mx} ({res["error"]}) but wrote {res["written"]}',
+                                   'signature': dict(sig, kind='rejected_but_written'), 'replay': case})
+        shutil.rmtree(root, ignore_errors=True)
+
+
+def trailing_nul_probe(rep: Report, ctx):
+    """'... with its own password and with no other': the password followed by NUL bytes is another password."""
+    for kdf in CHAIN_KDFS:
+        for how in ('init', 'add-key'):
+            pw = b'secret-' + how.encode()
+            if how == 'init':
+                r = real_init(settings_of(kdf=copy.deepcopy(kdf)), pw)
+                be, key = r['backend'], Repository(r['backend'], concurrent=1, cache_directory=None).serialize(r['result'].key)
+            else:
+                be, _ = make_repo(None, ctx.rng)
+                repo = Repository(be, concurrent=1, cache_directory=None)
+                out = run_async(lambda: repo.add_key(password=pw, settings={'encryption': {'kdf': copy.deepcopy(kdf)}}, shared=False))
+                key = Repository(be, concurrent=1, cache_directory=None).serialize(out.new_key)
+            rep.case(('trailing-nul', kdf.get('name'), json.dumps(kdf, sort_keys=True), how), nontrivial=True)
+            for bad in (pw + b'\x00', pw + b'\x00\x00\x00', b'\x00' + pw):
+                try:
+                    run_async(lambda: Repository(be, concurrent=1, cache_directory=None).unlock(password=bad, key=key))
+                except BaseException as e:  # noqa
+                    if isinstance(e, (KeyboardInterrupt, SystemExit, MemoryError)):
+                        raise
+                    continue
+                trailing = bad.startswith(pw)
+                rep.violations.append({'what': f'a key made by {how} with kdf {kdf.get("name")} and password {pw!r} is also unlocked by {bad!r}',
+                                       'signature': {'kind': 'unlock_trailing_nul' if trailing else 'foreign_password_unlocks', 'kdf': kdf.get('name')},
+                                       'replay': {'component': 'trailing-nul', 'kdf': kdf, 'password': pw.hex(), 'wrong_password': bad.hex(), 'how': how}})
+                break
 
 
 # --------------------------------------------------------------------------- key files written by init / add-key
@@ -1050,6 +1143,8 @@ def run(ctx) -> Report:
     long_password_probe(rep, ctx)
     key_file_probe(rep, ctx)
     reinit_probe(rep, ctx, ctx.scale(4, 40))
+    oversize_probe(rep, ctx)
+    trailing_nul_probe(rep, ctx)
     check_utils(rep, ctx, ctx.scale(60, 400))
     rep.notes.append('not exercised: the default user KDF (scrypt n=2**20, 1 GiB) - every encrypted case names cheap KDF parameters')
     return rep
@@ -1072,8 +1167,9 @@ def search(ctx, broken) -> Report:
 def replay(ctx, obj):
     rep = Report(rule=RULE)
     case = obj.get('replay') or {}
-    if case.get('component') in ('key-file', 'reinit'):
-        key_file_probe(rep, ctx) if case['component'] == 'key-file' else reinit_probe(rep, ctx, 10)
+    if case.get('component') in ('key-file', 'reinit', 'oversize', 'trailing-nul'):
+        {'key-file': key_file_probe, 'reinit': lambda r, c: reinit_probe(r, c, 10), 'oversize': oversize_probe,
+         'trailing-nul': trailing_nul_probe}[case['component']](rep, ctx)
         for v in rep.violations:
             print('VIOLATION-REPRODUCED', v['what'])
         if not rep.violations:
